@@ -239,8 +239,10 @@ def run_ensemble(case, mode, mapkind):
     st = dict(mode=mode, map=mapkind, lo_eff=case.get("lo") or _vec(s._defaultMin), hi_eff=case.get("hi") or _vec(s._defaultMax))
     term = _termination(case["term"])
     try:
+        tmpl = None
         if case.get("nested_instance"):
-            s.SetNestedSolver(_nested(case["nested"])(dim, case["NP"]) if case.get("NP") else _nested(case["nested"])(dim))
+            tmpl = _nested(case["nested"])(dim, case["NP"]) if case.get("NP") else _nested(case["nested"])(dim)
+            s.SetNestedSolver(tmpl)
         elif case.get("NP"):
             s.SetNestedSolver(_nested(case["nested"]), NP=case["NP"])
         else:
@@ -299,6 +301,8 @@ def run_ensemble(case, mode, mapkind):
         st.update(_log_stats(case, nmem))
         st["steps"] = steps
         st["nslots"] = nmem
+        if tmpl is not None:      # the members are copies: the user's own solver object is not run (it can configure another ensemble afterwards)
+            st["template_used"] = [int(tmpl.evaluations), int(tmpl.generations), len(tmpl._stepmon)]
     except Exception as e:
         st["error"] = type(e).__name__
         st["msg"] = str(e)[:200]
@@ -547,6 +551,8 @@ def oracle_ensemble(case, obs):
             add("member_count", "AbstractEnsembleSolver._Solve", "member-never-ran", [[m["evals"] for m in mem], st["nreal"]])
         if rep["all_bestE"] != [m["bestE"] for m in mem] or rep["all_evals"] != [m["evals"] for m in mem]:
             add("total_evals_is_sum", "AbstractEnsembleSolver._all_evals", "all-lists-not-members", None)
+        if st.get("template_used") and any(st["template_used"]):
+            add("member_count", "AbstractEnsembleSolver.__init_allSolvers", "configured-instance-itself-was-run", st["template_used"])
         _oracle_state(case, st, rep, tagged, "final", out, inst)
         if tagged and st["untagged"]:
             add("total_evals_is_sum", "AbstractEnsembleSolver._Solve", "cost-called-outside-members", st["untagged"])
